@@ -282,6 +282,19 @@ pub fn run(tier: Tier, seed: u64) -> i32 {
             expect: json!({}),
         });
     }
+    // (d) thorough: the validated trees of every C05 configuration (all resolution outcomes at
+    // every depth and position)
+    if tier == Tier::Thorough {
+        let cfgs = super::c05::configs(Tier::Quick);
+        for (i, c) in cfgs.iter().enumerate() {
+            for which in 0..2 {
+                let mut case = super::c05::make_case(c, which, None, super::semacommon::History::Plain, format!("C05 configuration {i} observed {which}"));
+                case.prop = PROP.into();
+                case.kind = "c05-configurations".into();
+                cases.push(case);
+            }
+        }
+    }
     let ncases = cases.len();
     super::drive(
         &stats,
